@@ -94,9 +94,14 @@ func (g *G) scQ(pos int) *Scenario {
 	f1, t1 := g.callee(1)
 	f0, _ := g.callee(0)
 	switch pos {
-	case 0: // statement, no value
-		body = append(body, ExprS(ErrQ(f0, nil, g.callArg("m"))))
+	case 0: // statement, no value; paren or command style (`f0? m`)
+		q := ErrQ(f0, nil, g.callArg("m"))
+		q.Cmd = g.r.Bool()
+		body = append(body, ExprS(q))
 		note = "stmt"
+		if q.Cmd {
+			note = "stmt-cmd"
+		}
 	case 1: // define
 		body = append(body, Def1("x", ErrQ(f1, t1, g.callArg("m"))), ExprS(Probe(g.id(), Var("x"))))
 		note = "define"
@@ -173,7 +178,9 @@ func (g *G) scBang(pos int, fail bool) *Scenario {
 	use := func(m string) []*Stmt {
 		switch pos {
 		case 0:
-			return []*Stmt{ExprS(ErrBang(f0, nil, g.callArg(m))), ExprS(ErrBang(f1, t1, g.callArg(m))), ExprS(ErrBang(f2, t2, g.callArg(m)))}
+			b0, b1, b2 := ErrBang(f0, nil, g.callArg(m)), ErrBang(f1, t1, g.callArg(m)), ErrBang(f2, t2, g.callArg(m))
+			b0.Cmd, b1.Cmd, b2.Cmd = g.r.Bool(), g.r.Bool(), g.r.Bool() // `f! a` command style
+			return []*Stmt{ExprS(b0), ExprS(b1), ExprS(b2)}
 		case 1:
 			x := g.v("x")
 			return []*Stmt{Def1(x, ErrBang(f1, t1, g.callArg(m))), ExprS(Probe(g.id(), Var(x)))}
@@ -235,14 +242,144 @@ func (g *G) scDflt() *Scenario {
 	return g.finish("errwrap_default", body)
 }
 
+// surfaceE: an int expression mixing the error-wrap operators with unary and binary operators so
+// that, printed with minimal parentheses, the parser's precedence decisions matter: `x()?:d OP y`,
+// `OP x()!`, `-f()?:d`, defaults that are literals, negative literals, probes or another `?:`,
+// error-wraps inside index expressions, slice literals and call arguments.
+func (g *G) surfaceE(depth int, f1 string, q bool) *Expr {
+	leaf := func() *Expr {
+		m := g.pick([]string{"m", "z"})
+		switch g.r.Intn(7) {
+		case 0, 1, 2:
+			var d *Expr
+			switch g.r.Intn(5) {
+			case 0:
+				d = Int(-g.r.Intn(4) - 1)
+			case 1:
+				d = Probe(g.id(), Int(g.r.Intn(5)+1))
+			case 2:
+				d = ErrDflt(f1, TInt, Int(g.r.Intn(5)+1), Var(g.pick([]string{"m", "z"})))
+			default:
+				d = Int(g.r.Intn(5) + 1)
+			}
+			return ErrDflt(f1, TInt, d, g.callArg(m))
+		case 3:
+			return ErrBang(f1, []*Ty{TInt}, g.callArg("m"))
+		case 4:
+			return Var(m)
+		case 5:
+			return Index(TInt, SliceLit(TInt, ErrBang(f1, []*Ty{TInt}, Var("m")), ErrDflt(f1, TInt, Int(2), Var(m))),
+				ErrDflt(f1, TInt, Int(g.r.Intn(2)), Var("z")))
+		default:
+			return Int(g.r.Intn(4) + 1)
+		}
+	}
+	if depth <= 0 {
+		return leaf()
+	}
+	switch g.r.Intn(8) {
+	case 0:
+		return g.nc(Neg(g.surfaceE(depth-1, f1, q)))
+	case 1:
+		return g.nc(Bin("rem", g.surfaceE(depth-1, f1, q), Int(g.r.Intn(3)+2)))
+	case 2:
+		return Call(g.h3(), g.surfaceE(depth-1, f1, q), g.surfaceE(0, f1, q), leaf())
+	case 3:
+		return leaf()
+	default:
+		return g.nc(Bin(g.pick([]string{"mul", "mul", "add", "sub"}), g.surfaceE(depth-1, f1, q), g.surfaceE(depth-1, f1, q)))
+	}
+}
+
+// qFirst: `?` as the first evaluated operand (the compiler evaluates it before the rest of the
+// statement anyway), under unary minus and/or followed by binary operators.
+func (g *G) qFirst(f1 string) *Expr {
+	q := ErrQ(f1, []*Ty{TInt}, g.callArg("m"))
+	var e *Expr = q
+	if g.r.Bool() {
+		e = Neg(q)
+	}
+	if g.r.Bool() {
+		e = Bin(g.pick([]string{"mul", "rem"}), e, Int(g.r.Intn(3)+2))
+	}
+	return Bin(g.pick([]string{"add", "sub", "mul"}), e, g.surfaceE(1, f1, false))
+}
+
+// scSurface: surface-syntax variety (always printed with minimal parentheses).
+func (g *G) scSurface() *Scenario {
+	f1, _ := g.callee(1)
+	var body []*Stmt
+	body = append(body, Def1("m", Int(2)), Def1("z", Int(0)))
+	for i, n := 0, 2+g.r.Intn(3); i < n; i++ {
+		x := g.v("x")
+		body = append(body, Def1(x, g.surfaceE(2, f1, false)), ExprS(Probe(g.id(), Var(x))))
+	}
+	// the same with `?` inside a function
+	gname := "g" + g.sfx
+	g.funcs = append(g.funcs, &Func{Name: gname, Params: []Param{{"m", TInt}, {"z", TInt}},
+		Results: []Param{{"", TInt}, {"", TErr}},
+		Body:    []*Stmt{Def1("y", g.qFirst(f1)), ExprS(Probe(g.id(), Var("y"))), Ret(Var("y"), Nil())}})
+	for ci, ms := range [][2]int{{2, 0}, {0, 3}} {
+		r, e := fmt.Sprintf("c%dr", ci), fmt.Sprintf("c%de", ci)
+		body = append(body, Define([]string{r, e}, Call(gname, Int(ms[0]), Int(ms[1]))),
+			ExprS(Probe(g.id(), Var(r))), ExprS(Probe(g.id(), Var(e))))
+	}
+	g.local("m", TInt)
+	g.local("z", TInt)
+	sc := g.finish("errwrap_surface", body)
+	sc.MinParens = true
+	return sc
+}
+
+// C03Fixed: regression inputs (also written to corpus/C03/*.xgo); run first in every batch.
+func C03Fixed() []*Scenario {
+	var out []*Scenario
+	{ // command-style `f0? m` must return the error, not panic (seeded change C03-1)
+		g := newG(vh.NewRand(1), "_cmdq")
+		f0, _ := g.callee(0)
+		q := ErrQ(f0, nil, Var("m"))
+		q.Cmd = true
+		g.funcs = append(g.funcs, &Func{Name: "g_cmdq", Params: []Param{{"m", TInt}}, Results: []Param{{"", TInt}, {"", TErr}},
+			Body: []*Stmt{ExprS(q), ExprS(Probe(5, Int(77))), Ret(Int(1), Nil())}})
+		sc := g.finish("errwrap_q", []*Stmt{
+			Define([]string{"a", "e"}, Call("g_cmdq", Int(1))), ExprS(Probe(1, Var("a"))), ExprS(Probe(2, Var("e"))),
+			Define([]string{"b", "e2"}, Call("g_cmdq", Int(0))), ExprS(Probe(3, Var("b"))), ExprS(Probe(4, Var("e2")))})
+		sc.Note, sc.MinParens = "fixed-cmd-q", true
+		out = append(out, sc)
+	}
+	{ // `a()?:1 * b()?:1`: the default is a unary expression (seeded change C03-2)
+		g := newG(vh.NewRand(1), "_dfltprec")
+		f1, _ := g.callee(1)
+		body := []*Stmt{Def1("m", Int(2)), Def1("z", Int(0)),
+			Def1("x1", Bin("mul", ErrDflt(f1, TInt, Int(1), Var("m")), ErrDflt(f1, TInt, Int(1), Var("m")))),
+			Def1("x2", Bin("mul", ErrDflt(f1, TInt, Int(3), Var("z")), ErrDflt(f1, TInt, Int(5), Var("m")))),
+			Def1("x3", Bin("rem", ErrDflt(f1, TInt, Int(7), Var("m")), Int(3))),
+			Def1("x4", Bin("add", ErrDflt(f1, TInt, Int(-2), Var("z")), Bin("mul", Int(2), ErrBang(f1, []*Ty{TInt}, Var("m")))))}
+		for _, x := range []string{"x1", "x2", "x3", "x4", "m", "z"} {
+			g.local(x, TInt)
+		}
+		sc := g.finish("errwrap_default", body)
+		sc.Note, sc.MinParens = "fixed-default-prec", true
+		out = append(out, sc)
+	}
+	for _, sc := range out {
+		sc.Name = "fixed" + sc.Name
+	}
+	return out
+}
+
 // C03Scenario generates the i-th scenario of the C03 mix.
 func C03Scenario(r *vh.Rand, i int) *Scenario {
 	g := newG(r, fmt.Sprintf("_%d", i))
 	switch k := i % 20; {
 	case k < 9:
 		return g.scQ(k)
-	case k < 16:
+	case k < 15:
 		return g.scBang(k-9, r.Chance(60))
+	case k == 15:
+		return g.scBang(g.r.Intn(2)*6, r.Chance(60)) // positions 0 (statements, command style) and 6
+	case k < 18:
+		return g.scSurface()
 	default:
 		return g.scDflt()
 	}
